@@ -281,3 +281,17 @@ def set_hyper(opt, gi, g, key, idx):
         grp["lr"] = g["lr"][idx]
     else:
         raise KeyError(key)
+
+
+def hyper_equals(opt, gi, g, key, idx) -> bool:
+    """Is param_groups[gi][key] the value number `idx` of the draw's table?"""
+    grp = opt.param_groups[gi]
+    if key == "mom":
+        return grp["momentum"] == g["mom"][idx]
+    if key == "b1":
+        return grp["betas"][0] == g["b1"][idx]
+    if key == "wd":
+        return grp["weight_decay"] == g["wd"][idx]
+    if key == "lr":
+        return grp["lr"] == g["lr"][idx]
+    raise KeyError(key)
